@@ -55,7 +55,20 @@ FILES = {
     'opt.rs': dict(module='css::selectors::opt::kani_verif', src='rsass/src/css/selectors/opt.rs',
                    unit='U-opt', functions=['Opt::collect_pos', 'Opt::collect_neg', 'Opt::map']),
     'list.rs': dict(module='sass::functions::list::kani_verif', src='rsass/src/sass/functions/list.rs',
-                    unit='U-index', functions=['index_of', 'get_list']),
+                    unit='U-index', functions=['index_of', 'get_list',
+                                               'list.join / list.append (separator and bracket choice; extracted ranges of the closures)',
+                                               'list.zip (length; extracted range of the closure)']),
+    'evalops.rs': dict(module='sass::value::kani_verif', src='rsass/src/sass/value.rs',
+                       unit='U-evalops', functions=['sass::Value::do_evaluate (unary-operator match, extracted range)',
+                                                    'sass::BinOp::eval (and/or branches, extracted range)',
+                                                    'sass::Value::do_evaluate (map-literal arm: duplicate-key check, extracted range)']),
+    'strfns.rs': dict(module='sass::functions::string::kani_verif', src='rsass/src/sass/functions/string.rs',
+                      unit='U-strfns', functions=['string.slice (index arithmetic: start, end, count; extracted ranges of the closure)',
+                                                  'string.insert (index arithmetic; extracted range of the closure)']),
+    'colorfns.rs': dict(module='sass::functions::color::hsl::kani_verif', src='rsass/src/sass/functions/color/hsl.rs',
+                        unit='U-colorfns', functions=['color.lighten / darken / saturate / desaturate / grayscale / complement (channel arithmetic; extracted ranges of the closures)']),
+    'cssdata.rs': dict(module='output::cssdata::kani_verif', src='rsass/src/output/cssdata.rs',
+                       unit='U-buffer-tail-k', functions=['CssData::into_buffer (tail: charset/BOM marker, newline trimming; extracted range)']),
     'comment.rs': dict(module='css::comment::kani_verif', src='rsass/src/css/comment.rs',
                        unit='U-comment', functions=['Comment::write']),
 }
@@ -68,6 +81,8 @@ BOUNDED_FILES = {
     'opt.rs': 'sequences of at most 4 items, payload type u8',
     'value.rs': 'one representative payload per non-recursive constructor (no nested Value)',
     'comment.rs': 'comment text of bounded length',
+    'cssdata.rs': 'buffers of at most 4 bytes; style concrete per harness',
+    'evalops.rs': 'one representative payload per value constructor without a nested Value (12 of 17 kinds); scalar payloads symbolic',
 }
 
 # One timeout for every quick harness (=> one `cargo kani` invocation per
@@ -85,6 +100,12 @@ OVERRIDES = [
     (r'^c01_get_indent_contract$', dict(bounded='len <= 160; modular in long_indent, whose contract is checked for four sampled lengths only')),
     (r'^c28_get_list_shape$', dict(bounded='lists of at most 2 elements', functions=['get_list'])),
     (r'^c28_index_of$', dict(functions=['index_of'])),
+    (r'^c17_for_end_unit', dict(functions=['sass::SrcRange::evaluate (unit conversion of the end value, extracted range)'],
+                                bounded='seven concrete (value, unit, unit) triples')),
+    (r'^c13_valuemap_', dict(functions=['OrderMap<css::Value, css::Value>::{get, contains_key, insert, remove} (the instantiation map.get/has-key/set/remove use)'],
+                             bounded='maps of one or two entries with concrete keys (1in / 96px / 95px, true, null)')),
+    (r'^c13_map_literal_', dict(bounded='two-entry literals, six concrete key pairs')),
+    (r'^c28_zip_truncates', dict(bounded='three lists of at most 3 elements')),
     (r'^c01_number_into_integer$', dict(functions=['Number::into_integer'])),
     (r'^c01_number_display_fraction_bound$', dict(functions=['Number (fraction digit bound used by Display)'])),
     (r'^c12_number_', dict(functions=['<Number as PartialEq>::eq', '<Number as PartialOrd>::partial_cmp'])),
@@ -102,6 +123,10 @@ OVERRIDES = [
                                     kind='attempt', tier='thorough', timeout=900)),
     (r'^c11_operator_(plus|minus)_', dict(bounded='11 representative ordered unit pairs; right magnitude 3; left magnitude all finite doubles up to 1e9',
                                           kind='attempt', tier='thorough', timeout=900)),
+    (r'^c11_(plus|minus)_arm_', dict(bounded='11 representative ordered unit pairs; right magnitude 3; left magnitude all finite doubles up to 1e9',
+                                     functions=['Operator::eval (numeric arm of + and of -, extracted ranges)'])),
+    (r'^c14_and_or_arm_', dict(bounded='left operand one representative per value kind; right operand true / null / number',
+                               functions=['Operator::eval (and / or arms, extracted ranges)'])),
     (r'^c12_operator_cmp', dict(bounded='unit px only', kind='attempt', tier='thorough', timeout=900)),
     (r'^c11_numeric_cmp_', dict(bounded='13 representative ordered unit pairs, probe magnitudes 1 and 3')),
     (r'^c11_numeric_unitless_vs_percent', dict(bounded='concrete probe values')),
@@ -122,6 +147,7 @@ EXTRA_PROPS = [
     (r'^c12_rgba_|^c12_cmp_chan|^c12_color_', ['C31']),
     (r'^c01_cmp_chan|^c01_color_cmp', ['C12']),
     (r'^c01_get_indent|^c01_cssbuf|^c01_long_indent', ['C07']),
+    (r'^c07_into_buffer_tail', ['C01']),
     (r'^c01_range_new', ['C17']),
     (r'^c31_color_set_alpha|^c31_.*set_alpha', ['C32']),
     (r'^c01_number_into_integer', ['C28', 'C17']),
@@ -136,6 +162,7 @@ DEG_MOD = ('ASSUMED, UNCHECKED contract of colors::hsla::deg_mod (the only user 
            '(identity on [0,360), v-360 on [360,720), 0 at 720, v+360 folded to 0 on [-360,0), "some angle in [0,360)" for any '
            'other finite v, NaN otherwise)')
 FILE_ASSUMPTIONS = {
+    'colorfns.rs': [DEG_MOD],
     'colors.rs': [DEG_MOD], 'convert.rs': [DEG_MOD], 'hsla.rs': [DEG_MOD], 'hwba.rs': [DEG_MOD],
     'list.rs': ['std::fmt::format stubbed to return an empty String in c28_index_of (error TEXT unchecked, error PRESENCE checked)'],
     'cssbuf.rs': ['format::long_indent replaced at CssBuf call sites by its contract (long_indent_by_contract); the contract itself is '
@@ -145,9 +172,9 @@ FILE_ASSUMPTIONS = {
 
 _h_re = re.compile(r'^\s*fn\s+((?:c\d\d|cover|canary)_[A-Za-z0-9_]+)\s*\(\s*\)', re.M)
 _per_style_re = re.compile(r'^per_style!\((\w+),\s*(\w+),\s*(\w+),\s*(\w+)\);', re.M)
-_target_re = re.compile(r'^(?:target|left|pair|per_tag|per_kind)!\((\w+),', re.M)
+_target_re = re.compile(r'^(?:target|left|pair|per_tag|per_kind|and_or|map_lit|arm_kind)!\((\w+),', re.M)
 _shape_re = re.compile(r'^shape!\((\w+),\s*(\w+),', re.M)
-_pair2_re = re.compile(r'^pair!\((c11_operator_\w+),\s*(c11_operator_\w+),', re.M)
+_pair2_re = re.compile(r'^(?:arm_)?pair!\((c11_\w+),\s*(c11_\w+),', re.M)
 _mac_re = re.compile(r'^(?:per_\w+|gen_\w+)!\(([^;]*)\);', re.M)
 
 
